@@ -721,8 +721,8 @@ func checkHull(c hullCase) (o ev.Outcome) {
 func init() {
 	ev.Define("subregion_bound", ev.Options{
 		Rule:  "A = exactly convex loop (vertices on a small circle, optionally grazing a pole within 0..0.02 rad with a vertex or an edge midpoint towards the pole, clustered vertices; or a convex lune-shaped quad whose diagonal joins points 2e-16..0.1 rad from antipodal); B inside A by construction and verified exactly (subset of A's vertices; vertices on the rays from an interior point to A's vertices at scale 1-1e-15..0.5; triangles on the nearly antipodal diagonal; A itself rotated). A containing a pole is excluded as documented (classified, not asserted). Assert ExpandForSubregions(A.RectBound()).Contains(B.RectBound()) and then A.Contains(B). Non-trivial = the expansion was needed (A's own bound does not contain B's) or it switched to full / full longitude.",
-		Quick: 40000, Thorough: 2000000}, genSubCase, checkSubregion)
+		Quick: 40000, Thorough: 1000000}, genSubCase, checkSubregion)
 	ev.Define("convex_hull", ev.Options{
 		Rule:  "1..3 inputs (point sets: degenerate relatives, exactly coplanar tuples, points on a circle plus centre and chord points, cell-vertex grids, 1-2 points, random discs with chord points; polylines; star loops; polygons with holes) within a spread of 1e-7..1.5 rad or within 0..0.05 of a hemisphere. Hull must be a valid loop, every consecutive triple exactly counter-clockwise and no vertex right of any edge; every input point is a hull vertex, or (exact half-space test) on the inner side of every edge and hull.ContainsPoint; hull vertices are input points; a second call gives the same loop; hull.Contains(each input loop). Non-trivial = a proper hull (>= 3 distinct inputs, not full) with an input point that is not a vertex but within 1e-13 of an edge plane.",
-		Quick: 30000, Thorough: 1200000}, genHullCase, checkHull)
+		Quick: 30000, Thorough: 600000}, genHullCase, checkHull)
 }
